@@ -21,7 +21,8 @@ ASSUMPTIONS = [
     'Filter::matches itself is the subject of C11',
 ]
 MANIFEST = {'text': 'proof (all normal paths) of: per received message exactly one counter is incremented, a message is only dropped when counted as filtered, '
-                    'otherwise sent unchanged and in order (no container, no write); disabled filters never enter a filter-kind container; Marker filters are never consulted.'}
+                    'otherwise sent unchanged and in order (no container, no write); disabled filters never enter a filter-kind container; Marker filters are never consulted.'
+                    ' Added: selection closures admit exactly the kinds of their collection; both matchers quantify with `any` only; `filters_active` covers every kind match_filters consults.'}
 
 FKC = 'adlt::filter::filter_impl::FilterKindContainer<'
 FILTER = 'adlt::filter::filter_impl::Filter'
